@@ -51,6 +51,18 @@ def check(run):
                 v.update(entry='run', cap=256)
             records.append(r)
     bounds['argument_conversion'] = '12 typed handlers of TY, 3 (4) symbolic bytes; exponent / radix prefixes + 2 symbolic bytes'
+    # response formatting (reached only after the handler returned): symbolic strings incl. quotes and multi-byte characters, blocks,
+    # tuples and lists with strings, through the pass-through and the heapless writer -- crashes and hangs only (values are C04's subject)
+    RESP = ('mirsym.checks.response_level', 'ResponseCheck')
+    for q in ('RST', 'RHS', 'RAR', 'RER', 'RT4', 'RSS', 'RF64', 'RI64'):
+        for wr in ('pass', 'heapless') if q in ('RST', 'RHS', 'RAR', 'RSS') else ('pass',):
+            st = run.explore(f'run TR {q}? with a symbolic return value, {wr} writer (crash / hang monitor)', RESP + ({'query': q, 'maxlen': 5 if thorough else 4, 'writer': wr},), 900 if thorough else 300)
+            for r in st['records']:
+                r['violations'] = [v for v in r.get('violations', []) if v['rule'] in ('PANIC', 'HANG', 'STEPLIMIT')]
+                for v in r['violations']:
+                    v.update(entry='run', cap=None if wr == 'pass' else 256)
+                records.append(r)
+    bounds['response_formatting'] = '8 response types of TR with symbolic return values (strings of 0..4 (5) bytes incl. one 2- or 3-byte character and quotes)'
     # (b) run with response buffers of every small capacity, free-form input over the class alphabet
     for cap in range(0, 5):
         for L in range(1, (5 if thorough else 4) + 1):
